@@ -187,8 +187,13 @@ def run(repo: Repo) -> Result:
         res.sample({"rule": "C23-KEY", "function": fn.qual, "check_call": text(chk_calls[0])[:160]})
 
     # --- C23-STORE ---------------------------------------------------------
+    from ..normalize import nfunc
+
     for cm in ("_check_cache", "_check_cache_async"):
-        fn = repo.own_method(MIXIN, cm)
+        # private helpers (`self._store(key, template)`, `self._reuse(cached, globals)`) are inlined:
+        # their argument `load_func()` is bound to a fresh local first, so the statements read as
+        # `template = load_func(); self.cache[cache_key] = template; return template` again
+        fn = nfunc(repo, repo.own_method(MIXIN, cm), aliases=False)
         node = fn.node
         res.ob(fn.qual, 5)
         loaded_vars, read_vars = set(), set()
